@@ -8,6 +8,10 @@ CLAIMED={
         "Trusted: go/ssa, the symgo interpreter and its leaf models (validated by native replay of witnesses), cvc5/z3. Out: real timers and sockets, concurrent callers of one Conn, headers beyond the bounds."),
  "C16":("ParseHeader/String/Apply run symbolically: all rule strings up to 6/9 bytes (regexps encoded from the real regexp/syntax program, validated against the real package), all rule lists of <=2/3 rules over pooled names with solver-decided letter case on maps of <=2 keys, compared with an independent reference semantics.",
         "Trusted: engine + regexp/CanonicalHeaderKey models (self-validated), cvc5/z3. Out: longer rules/lists, non-ASCII, dispatch by message kind (command/run), wire effects."),
+ "C17":("NewRegexpMatcherFromList/Match/Inverse run on every list of <=2/3 rules over a 14-pattern pool x include/exclude marks; the combined pattern built by the real code is compiled by the real regexp/syntax and matched against a symbolic host (all ASCII strings of length <=4/7 decided by the solver) and compared with per-rule evaluation, negation and list reversal.",
+        "Trusted: engine, the regexp term encoding (validated per pattern object against the real package on all strings <=4 over a pattern alphabet), cvc5/z3. Out: patterns outside the pool, longer hosts, non-ASCII."),
+ "C18":("ViaModifier.ModifyRequest runs symbolically for every boundary (4/8 hex chars), 0..2/3 Via lines of <=10/12 arbitrary printable bytes incl. same-name peer elements and three protocol versions: loop <=> some line contains the instance tag => 400 + Close; otherwise all earlier elements kept in order with the own element last.",
+        "Trusted: engine + string models, cvc5/z3. Out: longer chains/lines, the pipeline part (400 reaches the client, nothing contacted upstream) is under C04/C12, real two-proxy loops."),
 }
 NA={
  "C14":"deciding code is the goja JavaScript VM executing PAC scripts; not encodable by a Go-SSA symbolic executor (result-list parsing is covered under C05)",
